@@ -395,6 +395,39 @@ partial def loop (h : IO.FS.Stream) (s : St) : IO Unit := do
           loop h { s with diverged := true }
         else loop h s
       | _ => loop h s
+    | ["oProcessRaised", b, e, why, wal] =>
+      -- an exception that is not a cancellation escaped `process_event`: a failing WAL write must never affect event
+      -- processing (C17); a handler's exception is captured as its error result and affects nothing else (C11)
+      if wal == "1" then
+        printVios (s.sc ++ "~") s.line
+          [⟨"C17", "walFaultEscaped", [], s!"bus {b} event {e}: the failing WAL write raised {why} out of process_event"⟩]
+      else
+        printVios (s.sc ++ "~") s.line
+          [⟨"C11", "exceptionEscaped", [], s!"bus {b} event {e}: {why} escaped process_event instead of being captured as a handler's error result"⟩]
+      loop h s
+    | ["oAfterExpect", b, n] =>
+      -- C18: when expect() has returned / raised / been cancelled, its temporary subscription is gone from the real bus
+      let mdl := (s.w.bus b.toNat!).handlers.length
+      if n.toNat! > mdl then
+        IO.println s!"OBS {s.sc} {s.line} bus {b} #handlers model={mdl} real={n}"
+        printVios (s.sc ++ "~") s.line
+          [⟨"C18", "subscriptionLeft", [], s!"bus {b}: {n} handlers registered after expect() ended, {mdl} expected: the temporary subscription was not removed"⟩]
+        loop h { s with diverged := true }
+      else
+        match checkObs s.w ["oNHandlers", b, n] with
+        | some diffs =>
+          for (what, m, r) in diffs do IO.println s!"OBS {s.sc} {s.line} {what} model={m} real={r}"
+          loop h (if diffs.isEmpty then s else { s with diverged := true })
+        | none => loop h s
+    | ["oRejected", b, e, hh, q] =>
+      -- C14: a dispatch that raised leaves no trace: the event is neither in the real history nor in the real queue
+      -- (unless it already was there, which the model knows)
+      let inH := (natList hh).contains e.toNat! && !(s.w.bus b.toNat!).hist.contains e.toNat!
+      let inQ := (natList q).contains e.toNat! && !(s.w.bus b.toNat!).queue.contains e.toNat!
+      if inH || inQ then
+        printVios (s.sc ++ "~") s.line
+          [⟨"C14", "rejectedLeftTrace", [], s!"dispatch of event {e} to bus {b} raised, yet the event is in the bus's {if inH then "history" else "queue"}"⟩]
+      loop h s
     | ["oAccepted", b, e, q] =>
       -- C14: a dispatch that returned normally has put the event on the bus's queue
       if !(natList q).contains e.toNat! then
@@ -436,6 +469,13 @@ partial def loop (h : IO.FS.Stream) (s : St) : IO Unit := do
               let sg : List String := if E.path.getLast? != some I.bus && E.path.contains I.bus then ["F9"] else []
               let vio : Vio := ⟨"C09", "eventBus", sg, s!"instance {i} on bus {I.bus} read event_bus = {got}"⟩
               printVios (if s.diverged then s.sc ++ "~" else s.sc) s.line [vio]
+          -- C07: the observed event_path lists no bus twice
+          | ["oEv", e, _, _, _, path, _] =>
+            let pth := natList path
+            if pth.eraseDups.length != pth.length then
+              printVios (if s.diverged || !diffs.isEmpty then s.sc ++ "~" else s.sc) s.line
+                [⟨"C07", "pathDup", [], s!"event {e}: event_path {path} lists a bus twice"⟩]
+            else pure ()
           -- C08: a result of an event that was observed complete differs, on the real event, from what it was then
           | ["oRes", e, idx, _, _, st, err, _] =>
             (match s.m.snaps.find? (·.1 == e.toNat!), (s.w.ev e.toNat!).results[idx.toNat!]? with
@@ -460,6 +500,17 @@ partial def loop (h : IO.FS.Stream) (s : St) : IO Unit := do
           -- C13: the bound, evaluated on the history observed on the real bus after a dispatch / processing step
           | ["oHist", b, hh] =>
             let real := natList hh
+            -- C13: eviction order.  The model's history is the pre-eviction list minus the victims in the prescribed order
+            -- (completed, then started, then pending; oldest first).  A real history of the same size that kept an event
+            -- the model evicted, at the price of one the model kept, evicted out of order.
+            let mdl := (s.w.bus b.toNat!).hist
+            let lost := mdl.filter (fun e => !real.contains e)
+            let kept := real.filter (fun e => !mdl.contains e)
+            if mdl.length == real.length && !lost.isEmpty && !kept.isEmpty then
+              let st (e : EId) := statusStr (s.w.ev e).status
+              printVios (s.sc ++ "~") s.line
+                [⟨"C13", "evictionOrder", [], s!"bus {b}: evicted {lost.map fun e => (e, st e)} while keeping {kept.map fun e => (e, st e)} (created earlier / less advanced)"⟩]
+            else pure ()
             (match (s.w.bus b.toNat!).maxh with
              | some n =>
                if n != 0 && real.length > n then
